@@ -854,6 +854,14 @@ func writeEvidence(o checkOpts, pc *PropConfig, out *CheckOutcome, p *Prog) {
 		"wall_s":     round3(out.Wall),
 		"violations": len(out.Violations),
 	}
+	if o.tier == "thorough" {
+		if data, err := os.ReadFile(filepath.Join(o.verif, "out", "_selftest", o.prop+".summary.json")); err == nil {
+			var ms map[string]interface{}
+			if json.Unmarshal(data, &ms) == nil {
+				ev["coverage"].(map[string]interface{})["mutant_selftest"] = ms
+			}
+		}
+	}
 	writeJSON(filepath.Join(o.verif, "evidence", o.prop+".json"), ev)
 }
 
